@@ -30,6 +30,8 @@ type hkinfo struct {
 }
 
 type world04 struct {
+	probes  map[int][]chan struct{} // outstanding Join probes per process
+	r       *rand.Rand
 	hooks   []hkinfo
 	procs   []*process.Process
 	threads []*thr04
@@ -120,12 +122,28 @@ func (w *world04) observe() string {
 		}
 		ps = append(ps, fmt.Sprintf("(%s, %d, %s)", gal.Bool(term), w.errID(p.Err()), gal.List(kss)))
 	}
-	return fmt.Sprintf("mkobs04 %s %s", gal.List(w.log), gal.List(ps))
+	// probe Join on one process: it must return iff every forked child has terminated
+	probe := "None"
+	if len(w.procs) > 0 && w.r != nil && w.r.Intn(2) == 0 {
+		pid := w.r.Intn(len(w.procs))
+		p := w.procs[pid]
+		joined := make(chan struct{})
+		go func() { p.Join(); close(joined) }()
+		ret := false
+		select {
+		case <-joined:
+			ret = true
+		case <-time.After(10 * time.Millisecond):
+			w.probes[pid] = append(w.probes[pid], joined)
+		}
+		probe = fmt.Sprintf("(Some (%d, %s))", pid, gal.Bool(ret))
+	}
+	return fmt.Sprintf("mkobs04 %s %s %s", gal.List(w.log), gal.List(ps), probe)
 }
 
 func history04(r *rand.Rand, hist map[string]int) (string, any, string, bool) {
 	nt := 2 + r.Intn(2)
-	w := &world04{events: make(chan ev04, 16), release: map[int]chan struct{}{}, errs: []error{nil}}
+	w := &world04{events: make(chan ev04, 16), release: map[int]chan struct{}{}, errs: []error{nil}, probes: map[int][]chan struct{}{}, r: r}
 	for i := 1; i <= 4; i++ {
 		w.errs = append(w.errs, errors.New(fmt.Sprintf("e%d", i)))
 	}
@@ -175,6 +193,22 @@ func history04(r *rand.Rand, hist map[string]int) (string, any, string, bool) {
 			opG, opS = "PNew", "new"
 		case c < 22 && len(idleT) > 0 && len(w.procs) < 7:
 			tid, pid := idleT[r.Intn(len(idleT))], r.Intn(len(w.procs))
+			// WaitGroup usage: a Join probe that has been woken must have returned before the next Fork
+			allDone := true
+			for _, c := range w.procs {
+				if c.Parent() == w.procs[pid] && c.Status() != process.StatusTerminated {
+					allDone = false
+				}
+			}
+			if allDone {
+				for _, ch := range w.probes[pid] {
+					select {
+					case <-ch:
+					case <-time.After(2 * time.Second):
+					}
+				}
+				w.probes[pid] = nil
+			}
 			w.activate(w.threads[tid], func() { w.procs = append(w.procs, w.procs[pid].Fork()) })
 			opG, opS = fmt.Sprintf("PFork %d %d", tid, pid), fmt.Sprintf("fork t%d p%d", tid, pid)
 			hist["fork"]++
@@ -316,7 +350,7 @@ func history04(r *rand.Rand, hist map[string]int) (string, any, string, bool) {
 		select {
 		case <-joined:
 			j = true
-		case <-time.After(3 * time.Millisecond):
+		case <-time.After(20 * time.Millisecond):
 		}
 		joins = append(joins, gal.Bool(j))
 		allDone := true
